@@ -126,6 +126,12 @@ func (e c27ev) String() string {
 	if e.Kind == "pub" {
 		return fmt.Sprintf("deliver(%s,q%d)", e.Arg, e.QoS)
 	}
+	if e.Kind == "pub2" {
+		return fmt.Sprintf("PUBLISH(%s,q2) without PUBREL yet", e.Arg)
+	}
+	if e.Kind == "rel" {
+		return "PUBREL of the pending QoS 2 message"
+	}
 	return e.Kind + "(" + e.Arg + ")"
 }
 
@@ -139,6 +145,9 @@ func c27events() []c27ev {
 			evs = append(evs, c27ev{Kind: "pub", Arg: t, QoS: q})
 		}
 	}
+	// a QoS 2 message whose PUBREL comes later: subscriptions may change in between, and the delivery (on PUBREL)
+	// follows the subscriptions current then
+	evs = append(evs, c27ev{Kind: "pub2", Arg: "a/b"}, c27ev{Kind: "rel"})
 	return evs
 }
 
@@ -150,6 +159,7 @@ func c27run(t *testing.T, hist []c27ev) (viols []explore.Violation, outcome stri
 		connectAnd(c)
 		current := map[string]bool{}
 		nextTID := uint16(20)
+		pendingRel := ""
 		tids := map[string]uint16{}
 		var log []string
 		for i, e := range hist {
@@ -184,6 +194,54 @@ func c27run(t *testing.T, hist []c27ev) (viols []explore.Violation, outcome stri
 				if call.Returned && call.Err == "" {
 					delete(current, name)
 				}
+			case "pub2":
+				if pendingRel != "" {
+					continue // one message in flight at a time
+				}
+				if _, ok := tids[e.Arg]; !ok {
+					nextTID++
+					tids[e.Arg] = nextTID
+					c.FromGateway(refsn.Pkt{Type: refsn.REGISTER, TopicID: nextTID, MsgID: 77, Str: e.Arg}.Encode())
+				}
+				before := len(c.Deliv)
+				c.FromGateway(refsn.Pkt{Type: refsn.PUBLISH, TIT: 0, TopicID: tids[e.Arg], MsgID: 60, QoS: 2, Data: []byte("m2")}.Encode())
+				if len(c.Deliv) != before {
+					viols = append(viols, explore.Violation{Property: "C27", Sig: "qos2-delivered-before-pubrel", Detail: fmt.Sprintf("history %v: QoS 2 message on %q reached a callback before PUBREL", hist, e.Arg)})
+				}
+				pendingRel = e.Arg
+				log = append(log, e.String())
+			case "rel":
+				if pendingRel == "" {
+					continue
+				}
+				topic := pendingRel
+				pendingRel = ""
+				before := len(c.Deliv)
+				c.FromGateway(refsn.Pkt{Type: refsn.PUBREL, MsgID: 60}.Encode())
+				got := c.Deliv[before:]
+				var matching []string
+				for f := range current {
+					if refmatch.Match(f, topic) {
+						matching = append(matching, f)
+					}
+				}
+				sort.Strings(matching)
+				if last {
+					for _, d := range got {
+						if !current[d.Sub] {
+							viols = append(viols, explore.Violation{Property: "C27", Sig: "callback-of-non-current-subscription:on-pubrel", Detail: fmt.Sprintf("history %v: the QoS 2 message on %q released by PUBREL invoked the callback of %q which is not (or no longer) subscribed", hist, topic, d.Sub)})
+						} else if !refmatch.Match(d.Sub, topic) {
+							viols = append(viols, explore.Violation{Property: "C27", Sig: "callback-of-non-matching-filter:on-pubrel", Detail: fmt.Sprintf("history %v: message on %q invoked the callback of filter %q", hist, topic, d.Sub)})
+						}
+					}
+					if len(matching) > 0 && len(got) != 1 {
+						viols = append(viols, explore.Violation{Property: "C27", Sig: fmt.Sprintf("matching-subscription-not-served:deliveries=%d:on-pubrel", len(got)), Detail: fmt.Sprintf("history %v: the QoS 2 message on %q matches current %v at PUBREL but %d callbacks ran", hist, topic, matching, len(got))})
+					}
+					if len(matching) == 0 && len(got) != 0 {
+						viols = append(viols, explore.Violation{Property: "C27", Sig: "delivery-without-matching-subscription:on-pubrel", Detail: fmt.Sprintf("history %v: at PUBREL the message on %q matches nothing current but ran %d callbacks", hist, topic, len(got))})
+					}
+				}
+				log = append(log, fmt.Sprintf("%s->%d", e, len(got)))
 			case "pub":
 				before := len(c.Deliv)
 				topic := e.Arg
@@ -277,7 +335,7 @@ func TestC27(t *testing.T) {
 			for i := j.Lo; i < j.Hi; i++ {
 				h := c27hist(i, j.Depth, evs)
 				// only histories that end with a delivery are judged; prune the others
-				if h[len(h)-1].Kind != "pub" {
+				if k := h[len(h)-1].Kind; k != "pub" && k != "rel" {
 					continue
 				}
 				v, out, herr := c27run(t, h)
@@ -355,7 +413,7 @@ func TestC27(t *testing.T) {
 		"histories":                     hist,
 		"exhaustive":                    true,
 		"samples":                       []string{"match(\"a/#\", \"a\")", "match(\"+/b\", \"/b\")", "sub(a/+);sub(a/#);unsub(a/+);deliver(a/b,q2)"},
-		"rule":                          fmt.Sprintf("E3: every valid filter x every name of <=3 levels over {a,b,empty level} with + anywhere and # last (%d pairs) through the real match and through the handler table's store/handle/delete, against refmatch (MQTT 3.1.1 4.7); E1: every history of length %d over subscribe/unsubscribe of {a/+, a/#, +/b, short xy, predefined 1} and deliveries on {a, a/b, c/b, a/b/c, xy, p/1} at QoS 0/1/2 (QoS 2 delivered on PUBREL) that ends with a delivery, on the real client with a scripted gateway; states = distinct delivery logs", n, depth),
+		"rule":                          fmt.Sprintf("E3: every valid filter x every name of <=3 levels over {a,b,empty level} with + anywhere and # last (%d pairs) through the real match and through the handler table's store/handle/delete, against refmatch (MQTT 3.1.1 4.7); E1: every history of length %d over subscribe/unsubscribe of {a/+, a/#, +/b, short xy, predefined 1} and deliveries on {a, a/b, c/b, a/b/c, xy, p/1} at QoS 0/1/2 (QoS 2 delivered on PUBREL; also a QoS 2 PUBLISH and its PUBREL as separate events, so that subscriptions can change in between) that ends with a delivery, on the real client with a scripted gateway; states = distinct delivery logs", n, depth),
 	}
 	rep.Assumptions = []string{"default schedule", "'$'-topics are outside the alphabet", "when several current filters match, exactly one callback is demanded (which one is not specified)"}
 	rep.Finish()
